@@ -476,7 +476,7 @@ func (m *ConnectMessage) encodeMessage(dst []byte) (int, error) {
 
 	// According to the 3.1 spec, it's possible that the usernameFlag is set,
 	// but the username string is missing.
-	if m.UsernameFlag() && len(m.username) > 0 {
+	if m.UsernameFlag() && (len(m.username) > 0 || (m.PasswordFlag() && len(m.password) > 0)) {
 		n, err = writeLPBytes(dst[total:], m.username)
 		total += n
 		if err != nil {
@@ -630,7 +630,9 @@ func (m *ConnectMessage) msglen() int {
 	// Add the username length
 	// According to the 3.1 spec, it's possible that the usernameFlag is set,
 	// but the user name string is missing.
-	if m.UsernameFlag() && len(m.username) > 0 {
+	// (an empty user name must still be written when a password follows it,
+	// otherwise the password would be read back as the user name)
+	if m.UsernameFlag() && (len(m.username) > 0 || (m.PasswordFlag() && len(m.password) > 0)) {
 		total += 2 + len(m.username)
 	}
 
